@@ -223,13 +223,26 @@ func replayC14(c *Ctx, raw json.RawMessage) (bool, string) {
 	if err := json.Unmarshal(raw, &cs); err != nil {
 		return false, err.Error()
 	}
-	run, err := execC14(cs)
-	if err != nil {
-		return false, err.Error()
-	}
-	bad, _ := tlcJudge("TraceWriter", "TraceWriter.cfg", "runs.ndjson", []interface{}{run})
-	if len(bad) > 0 && !c14Diagnostic(bad[0].Why) {
-		return true, fmt.Sprintf("%s: %s (destination saw %d calls, accepted %d of %d bytes, retNil=%v)", c14Desc(cs), bad[0].Why, run.Calls, sumAccepted(run), run.Total, run.RetNil)
+	return replayC14Case(cs)
+}
+
+// replayC14Case executes the case alone; when that run is accepted, the same call is repeated
+// (a failed call followed by the same call is a history too: what a failing conversion leaves
+// behind in the process - a pooled buffer, say - must not reach the next one).
+func replayC14Case(cs c14Case) (bool, string) {
+	for attempt := 0; attempt < 4; attempt++ {
+		run, err := execC14(cs)
+		if err != nil {
+			return false, err.Error()
+		}
+		bad, _ := tlcJudge("TraceWriter", "TraceWriter.cfg", "runs.ndjson", []interface{}{run})
+		if len(bad) > 0 && !c14Diagnostic(bad[0].Why) {
+			note := ""
+			if attempt > 0 {
+				note = fmt.Sprintf(" (on repetition %d of the same call in one process)", attempt+1)
+			}
+			return true, fmt.Sprintf("%s: %s%s (destination saw %d calls, accepted %d of %d bytes, retNil=%v)", c14Desc(cs), bad[0].Why, note, run.Calls, sumAccepted(run), run.Total, run.RetNil)
+		}
 	}
 	return false, "accepted"
 }
@@ -408,13 +421,10 @@ func runC14(c *Ctx) {
 		if perWhy[sig]++; perWhy[sig] > 3 {
 			continue
 		}
-		run, err := execC14(cs)
-		if err != nil {
-			infra("cannot re-execute %s", c14Desc(cs))
-		}
-		if b2, _ := tlcJudge("TraceWriter", "TraceWriter.cfg", "runs.ndjson", []interface{}{run}); len(b2) == 0 {
+		ok, detail := replayC14Case(cs)
+		if !ok {
 			infra("run rejected in the batch but accepted alone: %s", c14Desc(cs))
 		}
-		c.Report(Violation{Signature: sig, Detail: c14Desc(cs) + ": " + b.Why, Replay: cs})
+		c.Report(Violation{Signature: sig, Detail: detail, Replay: cs})
 	}
 }
